@@ -175,6 +175,11 @@ func fixedHarmless() []mutant {
 		{Harmless: true, ID: "h-r28b-maps-cleared-in-place", Prop: "C13", Rule: "R28",
 			Edits: []edit{{File: "section_synonym_index.go", Old: "\t\tsynTermMap := make(map[uint32]string)\n\t\ttermSynMap := make(map[string]uint32)\n", New: "\t\tclear(synTermMap)\n\t\tclear(termSynMap)\n"},
 				{File: "section_synonym_index.go", Old: "\tvar newSynonymID uint32\n\n\t// for each field\n", New: "\tvar newSynonymID uint32\n\tsynTermMap := make(map[uint32]string)\n\ttermSynMap := make(map[string]uint32)\n\n\t// for each field\n"}}},
+		{Harmless: true, ID: "h-r37-term-changed-named", Prop: "C06", Rule: "R37",
+			Edits: []edit{{File: "section_inverted_text_index.go", Old: "\t\t\tif !bytes.Equal(prevTerm, term) {\n\t\t\t\t// check for the closure in meantime", New: "\t\t\ttermChanged := !bytes.Equal(prevTerm, term)\n\t\t\tif termChanged {\n\t\t\t\t// check for the closure in meantime"},
+				{File: "section_inverted_text_index.go", Old: "\t\t\tif !bytes.Equal(prevTerm, term) || prevTerm == nil {", New: "\t\t\tif termChanged || prevTerm == nil {"}}},
+		{Harmless: true, ID: "h-r37-first-term-flag", Prop: "C06", Rule: "R37",
+			Edits: []edit{{File: "section_inverted_text_index.go", Old: "\t\t\tif !bytes.Equal(prevTerm, term) || prevTerm == nil {", New: "\t\t\tif prevTerm == nil || !bytes.Equal(prevTerm, term) {"}}},
 		// the repaired forms of the round-6 "slip hidden in a refactoring" seeds: the same
 		// refactoring without the slip (each passes the pinned suite and the seed's own demonstration)
 		{Harmless: true, ID: "h-r6-C01-fixed", Patch: "refactors/r6-C01-fixed.diff"},
